@@ -245,7 +245,8 @@ Definition c03_job_ok (k : ccase) (j : jinfo) : bool :=
   (* (a) a pod set that received a bind reaches its minimum *)
   forallb (fun pm => let '(ps, minav) := pm in
              let l := pset_tis ps in
-             let nb := count (fun ti => in_pos (tid ti) bound) l in
+             (* a pod bound and then evicted again in the same cycle ends evicted *)
+             let nb := count (fun ti => in_pos (tid ti) bound && negb (in_pos (tid ti) ev)) l in
              (nb =? 0) ||
              (minav <=? count (fun ti => active0 ti && negb (in_pos (tid ti) ev)) l + nb)) (j_psets j)
   (* (b) nothing is bound for a job one of whose pod sets is nominated below its minimum *)
